@@ -98,7 +98,7 @@ macro docSrc(r)   = srcLenOf(r) == docLen()       // r reads that source
 macro sameSeg(a, b) = a.Start == b.Start && a.Stop == b.Stop && a.Padding == b.Padding && a.ForceNewline == b.ForceNewline
 
 func NewSegments
-  ensures fresh(result) && len(result.values) == 0
+  ensures fresh(result) && len(result.values) == 0 && fresh(result.values)
   modifies nothing
 
 func (*Segments).Append
@@ -492,7 +492,20 @@ iface text.Reader.Position
 iface text.Reader.SetPosition
   requires rdRep(recv) && rdPosOK(recv, arg0, arg1.Start, arg1.Stop, arg1.Padding, arg1.ForceNewline)
   ensures rdOK(recv) && rdLine(recv) == arg0
+  ensures [restored] arg1.Start != -1 ==> (rdStart(recv) == arg1.Start && rdStop(recv) == arg1.Stop && rdPad(recv) == arg1.Padding)
   modifies rdRep, rdLive, rdLine, rdStart, rdStop, rdPad, rdRem
+
+// FindClosure without the Advance option leaves the position untouched (C18): whatever the search did - across lines,
+// found or not - the reader is put back where it was
+func findClosureReader
+  requires r != nil && rdOK(r) && rdLive(r)
+  ensures [untouched] !opts.Advance ==> (rdOK(r) && rdLine(r) == old(rdLine(r)) && rdStart(r) == old(rdStart(r)) && rdStop(r) == old(rdStop(r)) && rdPad(r) == old(rdPad(r)))
+  modifies rdRep, rdLive, rdLine, rdStart, rdStop, rdPad, rdRem
+  loop 0 inv rdOK(r) && orgline == old(rdLine(r)) && orgpos.Start == old(rdStart(r)) && orgpos.Stop == old(rdStop(r)) && orgpos.Padding == old(rdPad(r))
+  loop 0 inv rdPosOK(r, orgline, orgpos.Start, orgpos.Stop, orgpos.Padding, orgpos.ForceNewline) && (ret == nil || (fresh(ret) && fresh(ret.values)))
+  loop 1 inv 0 <= i && bs != nil && len(bs) == rdLen(r) && rdLive(r) && rdOK(r) && (ret == nil || (fresh(ret) && fresh(ret.values)))
+  loop 2 inv 0 <= i
+  loop 3 inv 0 <= i
 
 // SkipSpaces / SkipBlankLines: both implementations delegate to the shared helpers below (scan `delegates`),
 // which are verified against these contracts on the interface itself.
